@@ -87,6 +87,17 @@ def gen(fmts, nps, sizes_list, settings, follows, ks):
             partial_writes(p, nrec)
             p.read_all('after partial writes')
         if fol == 'fill_rec':
+            # a collective access with a non-contiguous file layout (two records, part of the inner dimension) right before the fills:
+            # whatever file view it leaves behind may not influence where the fill values land
+            for v in range(len(p.m.vars)):
+                sh = p.m.shape(v)
+                if p.m.isrec(v) and len(sh) >= 2 and sh[1] >= 2:
+                    t = p.m.vars[v]['xtype']; cnt = [2] + [max(1, sh[1] - 1)] + sh[2:]
+                    n = 1
+                    for x in cnt: n *= x
+                    p.tag += 1
+                    p.do(dict(op='put', v=v, start=[3] + [0] * (len(sh) - 1), count=cnt, vals=[(p.tag * 3 + j) % 50 + 30 for j in range(n)], coll=1, mem=memof(t)))
+                    break
             for v in range(len(p.m.vars)):
                 if p.m.isrec(v) and p.m.fill_enabled(v) and p.m.vars[v]['nofill'] is not None:
                     p.do(dict(op='fill_var_rec', v=v, rec=0)); p.do(dict(op='fill_var_rec', v=v, rec=2))
